@@ -1,6 +1,6 @@
 (** C08 — order-significant mappings keep document order through decode and encode. *)
 From Coq Require Import String List Bool Arith.
-From GP Require Import Model.Gv Model.YamlGraph Model.Pipeline Model.Marshal Proofs.OrderProofs Proofs.MarshalProofs Proofs.YamlGraphProofs.
+From GP Require Import Model.Gv Model.YamlGraph Model.Pipeline Model.Marshal Proofs.OrderProofs Proofs.MarshalProofs Proofs.YamlGraphProofs Proofs.SmallLaws.
 Import ListNotations.
 Local Open Scope string_scope.
 Local Open Scope list_scope.
@@ -39,7 +39,22 @@ Example merge_position_example :
   decode_yaml st 0 = DOk (GMap [("a", GStr "e"); ("m1", GStr "m"); ("m2", GStr "m"); ("z", GStr "e")]).
 Proof. vm_compute. reflexivity. Qed.
 
+(** two keys of one mapping that canonicalise to the same string are ONE entry: it stands where the first stood and
+    holds the value written last *)
+Theorem oset_same_key_twice : forall k v1 v2 l, oset k v2 (oset k v1 l) = oset k v2 l.
+Proof. exact SmallLaws.oset_same_key_twice. Qed.
+Theorem oset_keeps_first_position : forall k v l, In k (map fst l) -> map fst (oset k v l) = map fst l.
+Proof. exact SmallLaws.oset_keeps_first_position. Qed.
+Theorem oset_new_key_appends : forall k v l, ~ In k (map fst l) -> oset k v l = l ++ [(k, v)].
+Proof. exact SmallLaws.oset_new_key_appends. Qed.
+Theorem oset_lookup : forall k v l, aget k (oset k v l) = Some v.
+Proof. exact SmallLaws.oset_lookup. Qed.
+
 Print Assumptions oset_fold_keys.
+Print Assumptions oset_same_key_twice.
+Print Assumptions oset_keeps_first_position.
+Print Assumptions oset_new_key_appends.
+Print Assumptions oset_lookup.
 Print Assumptions skip_keys_first.
 Print Assumptions env_block_parse_order.
 Print Assumptions env_block_marshal_order.
